@@ -168,6 +168,8 @@ func C18(ctx *core.Ctx, r *core.Report) {
 	c18CacheDroppedOnMutation(ctx, r)
 	// "each entry is found under the key its key leaves hold"
 	c17KeyMatchConjunction(ctx, r)
+	c18GrowByAppendOnly(ctx, r)
+	c18LookupBeforeCreate(ctx, r)
 }
 
 // isFieldLoadOf: v is a load of recv.<field>.
@@ -447,4 +449,80 @@ func c18CacheDroppedOnMutation(ctx *core.Ctx, r *core.Report) {
 		}
 	}
 	r.Floor("cache-dropped-on-mutation", n, 4)
+}
+
+// c18GrowByAppendOnly: a list backed by a Go slice gets a new entry by
+// appending a freshly created item. Re-slicing beyond the current length
+// (v.Slice(0, v.Len()+1), s[:len(s)+1], SetLen(Len()+1)) also "adds" an element —
+// whatever the backing array holds at that place: after a delete shifted the
+// elements down, that is a stale copy of the former last entry, and the new
+// entry (a replace, say) starts with the old entry's leaves.
+func c18GrowByAppendOnly(ctx *core.Ctx, r *core.Report) {
+	fns := append(scopeFuncs(ctx, "nodeutil"), scopeFuncs(ctx, "node")...)
+	isLenPlus := func(v ssa.Value) bool {
+		bo, ok := core.Strip(v).(*ssa.BinOp)
+		if !ok || bo.Op != token.ADD {
+			return false
+		}
+		for _, op := range []ssa.Value{bo.X, bo.Y} {
+			if c, ok := core.Strip(op).(*ssa.Call); ok {
+				if cal := c.Common().StaticCallee(); cal != nil && core.FnName(cal) == "reflect.Value.Len" {
+					return true
+				}
+				if b, ok := c.Common().Value.(*ssa.Builtin); ok && b.Name() == "len" {
+					return true
+				}
+			}
+		}
+		return false
+	}
+	nSlice, nAppend := 0, 0
+	for _, f := range fns {
+		core.Instrs(f, func(_ *ssa.BasicBlock, in ssa.Instruction) {
+			switch x := in.(type) {
+			case *ssa.Call:
+				cal := x.Common().StaticCallee()
+				if cal == nil {
+					return
+				}
+				switch core.FnName(cal) {
+				case "reflect.Append", "reflect.AppendSlice":
+					nAppend++
+				case "reflect.Value.Slice", "reflect.Value.Slice3", "reflect.Value.SetLen":
+					nSlice++
+					args := x.Common().Args
+					bad := false
+					for _, a := range args[1:] {
+						if isLenPlus(a) {
+							bad = true
+						}
+					}
+					if bad {
+						r.Ob("grow-by-append-only", core.FnName(f)+"/"+cal.Name()+"(…Len()+k)", ctx.Pos(x.Pos()), false,
+							"a slice-backed list is made longer by re-slicing beyond its length instead of appending a newly created item: the element that appears is whatever the backing array still holds there (after a delete: a stale copy of the former last entry), so the new entry starts with old content")
+					}
+				}
+			case *ssa.Slice:
+				if x.High != nil && isLenPlus(x.High) {
+					if _, isSlice := x.X.Type().Underlying().(*types.Slice); isSlice {
+						r.Ob("grow-by-append-only", core.FnName(f)+"/s[:len(s)+k]", ctx.Pos(x.Pos()), false,
+							"a slice is made longer by re-slicing beyond its length: the element that appears is whatever the backing array still holds there")
+					}
+				}
+			}
+		})
+	}
+	r.Ob("grow-by-append-only", "nodeutil+node/scanned", "nodeutil/reflect.go", nAppend >= 2,
+		fmt.Sprintf("%d reflect.Append/AppendSlice and %d reflect re-slice calls examined (at least two appends expected: the slice list nodes)", nAppend, nSlice))
+	r.Count("instances:grow-by-append-only(reflect slice ops)", nAppend+nSlice)
+}
+
+// c18LookupBeforeCreate: "no list holds two entries with equal keys" rests on
+// the editor looking an entry up by its key before it creates one (decided by
+// C03's rules over editor.list/editor.node); reported here as well because a
+// change that skips the lookup breaks this property first.
+func c18LookupBeforeCreate(ctx *core.Ctx, r *core.Report) {
+	sub := core.NewReport("C03", r.Tier, r.Root, r.Seed)
+	C03(ctx, sub)
+	r.Borrow(sub, "lookup-precedes-create", "create-only-when-allowed")
 }
